@@ -242,6 +242,10 @@ class Headers:
                 chunk = chunk[:(height-e.height)*self.header_size]
             if chunk:
                 added += self._write(height, chunk)
+                # connected headers become the tip: drop what an older, longer branch left behind them, or a
+                # later header could link to (and be accepted on top of) a stale header of the abandoned branch
+                self.io.truncate()
+                self._size = self.io.tell() // self.header_size
             if bail:
                 break
         return added
